@@ -71,10 +71,21 @@ def cell_key(col, v):
     return scalar_key(col['kind'], v)
 
 
-def to_python(col, v):
-    """Model cell -> the Python value a caller would put in a list-form append."""
+def to_python(col, v, numpy_scalars=False):
+    """Model cell -> the Python value a caller would put in a list-form append; with
+    numpy_scalars the caller happens to hold numpy scalars (np.str_/np.bytes_ strings,
+    numpy ints and floats, a plain int for an integral float)."""
     def one(x):
         k = col['kind']
+        if numpy_scalars:
+            if k in INT_RANGE:
+                return {'i2': np.int16, 'i4': np.int32, 'i8': np.int64}[k](int(x))
+            if k == 'f4':
+                return np.float32(float(x))
+            if k == 'f8':
+                f = float(x)
+                return int(f) if (f == f and abs(f) < 1e15 and f == int(f) and str(f) not in ('-0.0',)) else np.float64(f)
+            return np.str_(x) if len(str(x)) % 2 else np.bytes_(str(x).encode('ascii'))
         if k in INT_RANGE:
             return int(x)
         if k == 'f4':
